@@ -23,7 +23,8 @@ use midnight_proofs::{
     transcript::{CircuitTranscript, Transcript},
 };
 use mzkh::{
-    csdump::{cs_string, table_string},
+    copyrec::{requested_copies, CellRef},
+    csdump::{cs_string, requested_copies_hold, table_string_requested},
     family::{sample_params, FamCircuit, FamParams, FaultKind, GateKind, LookupKind},
     Ctx,
 };
@@ -50,6 +51,8 @@ struct Member {
     pk: ProvingKey<F, Scheme>,
     cs_line: String,
     n_challenges: usize,
+    /// copy constraints requested by the circuit (independent of the keygen Assembly)
+    copies: Vec<(CellRef, CellRef)>,
 }
 
 fn setup_member(fp: &FamParams, seed: u64) -> Member {
@@ -62,7 +65,8 @@ fn setup_member(fp: &FamParams, seed: u64) -> Member {
                 let pk = keygen_pk(vk, &c).unwrap();
                 let cs_line = cs_string(pk.get_vk().cs());
                 let n_challenges = pk.get_vk().cs().num_challenges();
-                return Member { fp: fp.clone(), k, params, pk, cs_line, n_challenges };
+                let copies = requested_copies::<F, _>(&c);
+                return Member { fp: fp.clone(), k, params, pk, cs_line, n_challenges, copies };
             }
             Err(_) if k < 10 => k += 1,
             Err(e) => panic!("keygen failed: {e:?}"),
@@ -165,7 +169,7 @@ fn one_case(
         "sat p=73eda753299d7d483339d80809a1d80553bda402fffe5bfeffffffff00000001 ch={} {} {}",
         ch_s,
         m.cs_line,
-        table_string(&mp, n)
+        table_string_requested(&mp, n, &m.copies)
     );
     let b = |x: bool| if x { "1" } else { "0" };
     let ans = format!("rowSat={} mock={} gt={} lookups={} copies={}", b(real), b(mock_ok), b(gt), b(lk), b(cp));
@@ -179,6 +183,13 @@ fn one_case(
     }
     if !cp {
         ctx.count("rejected-by:copy");
+    }
+    if real && !requested_copies_hold(&mp, &m.copies) {
+        ctx.oracle_fail(
+            &format!("verifier-accepts:requested-copy-violated:{label}"),
+            "verifier accepted a proof from an assignment violating a copy constraint the circuit requested",
+            json!({"case": desc, "real": real, "mock": mock_ok}),
+        );
     }
     if real != mock_ok {
         let key = if mock_ok { "mock-accepts:verifier-rejects" } else { "mock-rejects:verifier-accepts" };
